@@ -217,6 +217,29 @@ fn driver() -> i32 {
     0
 }
 
+/// `DELTA_VERIF=dump:vte`: the transition table of the escape-sequence parser that delta
+/// links (anstyle-parse), one line per state: 256 entries `<next state>:<action>` (numeric
+/// values of anstyle_parse::state::{State, Action}).
+fn dump_vte() -> i32 {
+    use anstyle_parse::state::{state_change, State};
+    use std::convert::TryFrom;
+    let stdout = std::io::stdout();
+    let mut out = stdout.lock();
+    for st in 0u8..16 {
+        let state = match State::try_from(st) {
+            Ok(s) => s,
+            Err(_) => continue,
+        };
+        let mut entries = Vec::with_capacity(256);
+        for b in 0u16..256 {
+            let (ns, act) = state_change(state, b as u8);
+            entries.push(format!("{}:{}", ns as u8, act as u8));
+        }
+        let _ = writeln!(out, "{} {}", st, entries.join(" "));
+    }
+    0
+}
+
 /// Returns Some(exit code) when a verification mode handled the invocation.
 pub fn dispatch() -> Option<i32> {
     let mode = std::env::var("DELTA_VERIF").ok()?;
@@ -224,6 +247,8 @@ pub fn dispatch() -> Option<i32> {
         Some(driver())
     } else if let Some(spec) = mode.strip_prefix("proc:") {
         Some(proc_scenario(spec))
+    } else if mode == "dump:vte" {
+        Some(dump_vte())
     } else {
         None
     }
